@@ -231,7 +231,7 @@ def run_shard(spec, acc):
                 fl |= int(f)
         case = {'enc': rng.choice([None, 'utf-8']), 'script': script, 'src': src,
                 'ignorecase': rng.random() < 0.3, 'flags': fl,
-                'lit': ''.join(rng.choice(TEXT + ['*', '(', '\\', '+']) for _ in range(rng.randint(1, 3))),
+                'lit': ''.join(rng.choice(TEXT + ['*', '(', '\\', '+']) for _ in range(rng.randint(1, 3) if rng.random() < 0.92 else 0)),
                 'prefill': ''.join(rng.choice(TEXT) for _ in range(rng.randint(0, 3))) if rng.random() < 0.3 else '',
                 'bad': rng.randrange(len(BAD))}
         if rng.random() < 0.5:
@@ -283,7 +283,9 @@ def compare(acc, case, name, ref, got):
 
 
 BAD = ['int', 'float', 'none-in-list', 'nested-list', 'tuple', 'wrong-string-type', 'int-in-list', 'object',
-       'exact-int', 'exact-none-in-list', 'exact-compiled', 'exact-wrong-string-type']
+       'exact-int', 'exact-none-in-list', 'exact-compiled', 'exact-wrong-string-type',
+       'zero', 'zero-float', 'false', 'empty-dict', 'empty-bytearray', 'exact-zero', 'exact-zero-float', 'exact-false',
+       'list-zero', 'exact-empty-wrong-string-type']
 
 
 def bad_object(name, conv, enc):
@@ -296,6 +298,11 @@ def bad_object(name, conv, enc):
         'exact-int': ('exact', 5), 'exact-none-in-list': ('exact', [conv('a'), None]),
         'exact-compiled': ('exact', [re.compile(conv('a'))]),
         'exact-wrong-string-type': ('exact', wrong),
+        # objects that are false in a boolean context are objects like any other
+        'zero': ('expect', 0), 'zero-float': ('expect', 0.0), 'false': ('expect', False), 'empty-dict': ('expect', {}),
+        'empty-bytearray': ('expect', bytearray()), 'exact-zero': ('exact', 0), 'exact-zero-float': ('exact', 0.0),
+        'exact-false': ('exact', False), 'list-zero': ('list', 0),
+        'exact-empty-wrong-string-type': ('exact', b'' if enc else None),
     }[name]
 
 
